@@ -265,12 +265,23 @@ def build_silf(m, version=0x00030000):
         offs.append(len(sub))
         sub += build_pass(p, classes, nglyphs, len(sub))
     offs.append(len(sub))
+    if not passes:
+        sub += b"\0" * 4       # a sub-table without passes: the (empty) pass area must still begin inside the sub-table
     sub = bytearray(sub)
     for i, o in enumerate(offs):
         sub[opass_at + 4 * i: opass_at + 4 * i + 4] = u32(o)
     if v3:
         sub[4:6] = u16(opass_at)
         sub[6:8] = u16(pseudo_at)
+    if m.get("empty_first") and passes:
+        # two sub-tables: the first one (the one every segment is shaped with) has no passes at all, the second is the
+        # program; valid as long as some sub-table has passes
+        first = bytes(build_silf(dict(m, passes=[], empty_first=0), version))
+        skip = len(u32(version) + (u32(0x00050000) if v3 else b"") + u16(1) + u16(0)) + 4
+        sub0 = first[skip:]
+        hdr = u32(version) + (u32(0x00050000) if v3 else b"") + u16(2) + u16(0)
+        o0 = len(hdr) + 8
+        return hdr + u32(o0) + u32(o0 + len(sub0)) + sub0 + bytes(sub)
     hdr = u32(version) + (u32(0x00050000) if v3 else b"") + u16(1) + u16(0)
     hdr += u32(len(hdr) + 4)
     return hdr + bytes(sub)
@@ -379,7 +390,10 @@ def build_tables(m, silf_version=0x00030000):
         t["glyf"], t["loca"] = build_glyf_loca(m)
     if m.get("nfeat"):
         from . import feat
-        t["Feat"] = feat.feat_table([[0, 1, 2]] * m["nfeat"])
+        # "featpad" wide features (16 bits each) in front of the program's own, so that those live in a late chunk of
+        # the feature-value vector
+        pad = m.get("featpad", 0)
+        t["Feat"] = feat.feat_table([[0, 65535]] * pad + [[0, 1, 2]] * m["nfeat"], ids=[2001 + i for i in range(pad)] + [feat.FEAT_ID0 + i for i in range(m["nfeat"])])
     return t
 
 
